@@ -140,8 +140,20 @@ def gen_enum(rng, cid, nvar, force=None, fwd=()):
 
 # ---- rendering: Rust
 
+# Operand types: T0..T3 implement only the operator traits.  H0..H3 implement the same traits AND have INHERENT
+# methods named like every operator method (add, mul, shl_assign, not, sum, ...), generic in the argument, which
+# return a visibly different term "(INHERENT-<name> ..)".  A derive that reaches a field through method-call
+# syntax (`self.f.mul(rhs)`) instead of the operator trait's path silently calls those (classes
+# inherent-namesake-shadows-*).  `hij` cases use H types for their fields and derive everything.
+
+
+def tag_ctor(c, tag):
+    """name of the concrete operand type behind a field's type (generic parameters are instantiated with it)"""
+    return ("H%d" if c.get("hij") else "T%d") % tag
+
+
 def ty_text(c, tag):
-    return c["generic"].get(tag, "T%d" % tag)
+    return c["generic"].get(tag, tag_ctor(c, tag))
 
 
 def attr_rust(a):
@@ -272,13 +284,14 @@ class Render:
             return (self.vars[0] if e[1] == "Lhs" else self.vars[1]) + str(e[2])
         if k == "ECall":
             st, meth, a, b = e[1], py_str(e[2]), self.expr(e[3]), self.expr(e[4])
-            if st == "CMethod":
-                return "%s.%s(%s)" % (a, meth, b)
+            if st[0] == "CPath":
+                ref = {"RefNo": "", "RefMut": "&mut "}[st[1]]
+                return "derive_more::core::ops::%s::%s(%s%s,%s)" % (self.trait, meth, ref, a, b)
             ty = ty_text(self.c, st[1])
             ref = {"RefNo": "", "RefMut": "&mut "}[st[2]]
             return "<%s as derive_more::with_trait::%s<__RhsT>>::%s(%s%s,%s)" % (ty, self.trait, meth, ref, a, b)
         if k == "ECall1":
-            return "%s.%s()" % (self.expr(e[2]), py_str(e[1]))
+            return "derive_more::core::ops::%s::%s(%s)" % (self.trait, py_str(e[1]), self.expr(e[2]))
         if k == "EIdentity":
             return "derive_more::with_trait::%s::%s(derive_more::core::iter::empty::<%s>())" % (
                 self.trait, py_str(e[1]), ty_text(self.c, e[2]))
@@ -393,9 +406,20 @@ def prelude():
          "impl Scal for Sc { fn t(&self) -> String { format!(\"s{}\", self.0) } }",
          "impl Scal for Sz { fn t(&self) -> String { format!(\"z{}\", self.0) } }",
          "impl Scal for Sn { fn t(&self) -> String { self.0.clone() } }"]
-    for k in range(NTAGS):
-        T = "T%d" % k
+    for k, fam in [(k, fam) for fam in "TH" for k in range(NTAGS)]:
+        T = "%s%d" % (fam, k)
         L.append("#[derive(Clone, Debug)] pub struct %s(pub String);" % T)
+        if fam == "H":
+            inh = []
+            for tr in ADD_LIKE + MUL_LIKE:
+                m, ma = STD[tr], STD[tr + "Assign"]
+                inh.append("pub fn %s<K>(self, _k: K) -> %s { %s(format!(\"(INHERENT-%s {})\", self.0)) }" % (m, T, T, m))
+                inh.append("pub fn %s<K>(&mut self, _k: K) { self.0 = format!(\"(INHERENT-%s {})\", self.0); }" % (ma, ma))
+            for tr in UNARY:
+                inh.append("pub fn %s(self) -> %s { %s(format!(\"(INHERENT-%s {})\", self.0)) }" % (STD[tr], T, T, STD[tr]))
+            for tr in FOLD:
+                inh.append("pub fn %s<I>(_i: I) -> %s { %s(\"(INHERENT-%s)\".to_string()) }" % (STD[tr], T, T, STD[tr]))
+            L.append("impl %s { %s }" % (T, " ".join(inh)))
         L.append("impl TagLike for %s { fn s(&self) -> String { self.0.clone() } }" % T)
         for tr in ADD_LIKE + MUL_LIKE:
             m = STD[tr]
@@ -414,17 +438,17 @@ def prelude():
             m = STD[tr]
             L.append("impl core::ops::%s for %s { type Output = %s; fn %s(self) -> %s { %s(format!(\"(%s {})\", self.0)) } }"
                      % (tr, T, T, m, T, T, m))
-        L.append("impl core::iter::Sum for %s { fn sum<I: Iterator<Item = %s>>(it: I) -> %s { it.fold(%s(\"(sum %s)\".into()), |a, b| core::ops::Add::add(a, b)) } }"
-                 % (T, T, T, T, T))
-        L.append("impl core::iter::Product for %s { fn product<I: Iterator<Item = %s>>(it: I) -> %s { it.fold(%s(\"(product %s)\".into()), |a, b| core::ops::Mul::mul(a, b)) } }"
-                 % (T, T, T, T, T))
+        L.append("impl core::iter::Sum for %s { fn sum<I: Iterator<Item = %s>>(it: I) -> %s { it.fold(%s(\"(sum T%d)\".into()), |a, b| core::ops::Add::add(a, b)) } }"
+                 % (T, T, T, T, k))
+        L.append("impl core::iter::Product for %s { fn product<I: Iterator<Item = %s>>(it: I) -> %s { it.fold(%s(\"(product T%d)\".into()), |a, b| core::ops::Mul::mul(a, b)) } }"
+                 % (T, T, T, T, k))
     return "\n".join(L) + "\n"
 
 
 def value_rust(c, ctor, shape, fields, letter):
     """expression constructing a value whose i-th field's leaf is `<letter><i>`"""
     path = "S" if ctor is None else "E::%s" % ctor
-    leaves = ["T%d(\"%s%d\".to_string())" % (f["tag"], letter, i) for i, f in enumerate(fields)]
+    leaves = ["%s(\"%s%d\".to_string())" % (tag_ctor(c, f["tag"]), letter, i) for i, f in enumerate(fields)]
     if shape == "unit":
         return path
     if shape == "tuple":
@@ -484,7 +508,7 @@ def module_rust(c):
             inits = []
             for i, f in enumerate(c["fields"]):
                 mem = f["name"] if c["shape"] == "named" else str(i)
-                inits.append((mem, "T%d(format!(\"(%s {} {})\", self.%s.0, r.%s.0))" % (f["tag"], m.upper(), mem, mem)))
+                inits.append((mem, "%s(format!(\"(%s {} {})\", self.%s.0, r.%s.0))" % (tag_ctor(c, f["tag"]), m.upper(), mem, mem)))
             if c["shape"] == "tuple":
                 v = "S(%s)" % ", ".join(e for _, e in inits)
             else:
@@ -661,6 +685,27 @@ def gen_cases(rng, tier):
             add(gen_struct(rng, None, shape, n, set()))
             add(gen_struct(rng, None, shape, n, set(mulset)))
             add(gen_struct(rng, None, shape, n, set(), custom=("Add", "Mul")))
+    # operand types with inherent namesakes of every operator method
+    for shape in ("tuple", "named"):
+        for n in (1, 2, 3, 4):
+            for (fwd, custom) in ((set(), ()), (set(mulset), ())) if n <= 2 else ((set(), ("Mul",)),):
+                c = gen_struct(rng, None, shape, n, set(fwd), custom=custom)
+                c["hij"] = True
+                add(c)
+    for _ in range(12 if tier == "quick" else 120):
+        fwd = set(t for t in mulset if rng.random() < 0.4)
+        c = gen_struct(rng, None, rng.choice(["tuple", "named"]), rng.choice([1, 2, 3, 4, 5]), fwd,
+                       custom=[x for x in ("Add", "Mul") if rng.random() < 0.3 and x not in fwd])
+        c["hij"] = True
+        add(c)
+    for k in ("tuple", "named"):
+        c = gen_enum(rng, None, 2, force=[k, "unit"], fwd=MUL_LIKE)
+        c["hij"] = True
+        add(c)
+    for _ in range(8 if tier == "quick" else 80):
+        c = gen_enum(rng, None, rng.choice([1, 2, 3, 4]), fwd=[t for t in MUL_LIKE if rng.random() < 0.35])
+        c["hij"] = True
+        add(c)
     add(gen_struct(rng, None, "unit", 0, set(), custom=("Add", "Mul")))
     add(gen_struct(rng, None, "named", 0, set(), custom=("Add", "Mul")))
     add(gen_struct(rng, None, "tuple", 0, set(), custom=("Add", "Mul")))
@@ -970,7 +1015,7 @@ def run(tier, seed, replay):
                 chk.violation("tie-runtime", {"case": c}, "model returned %d observations for %d operations" % (len(mt), len(ops)))
                 continue
             shape_key = (c["kind"], c.get("shape"), len(c.get("fields", [])), tuple(c["fwd"]), tuple(c["custom"]),
-                         bool(c["generic"]), tuple((v["shape"], len(v["fields"])) for v in c.get("variants", [])))
+                         bool(c["generic"]), bool(c.get("hij")), tuple((v["shape"], len(v["fields"])) for v in c.get("variants", [])))
             results = {}
             for op, m in zip(ops, mt):
                 key, tr = op[0], op[1]
@@ -978,7 +1023,7 @@ def run(tier, seed, replay):
                 model = py_str(m)
                 if c["kind"] == "struct":
                     want = oracle_struct(c, *op)
-                    chk.bump("runtime:struct:%s:%s" % (c["shape"], op[2]))
+                    chk.bump("runtime:struct%s:%s:%s" % ("-inherent-namesakes" if c.get("hij") else "", c["shape"], op[2]))
                 else:
                     want = oracle_enum(c, *op)
                     chk.bump("runtime:enum:" + ("unary" if op[3] is None else "same" if op[2] == op[3] else "mismatch"))
@@ -1024,6 +1069,8 @@ def run(tier, seed, replay):
         rule="run-time cases: every struct shape tuple/named x 1..4 fields x {all mul-like scalar, all forward, hand-written "
              "Add/Mul} + unit/empty structs + random structs (0..6 fields of 4 distinct operand types, random subset of the ten "
              "mul-like derives under #[..(forward)] / #[..(not(forward))], 15% generic, random hand-written Add/Mul for Sum/Product) "
+             "+ structs (tuple/named x 1..4 fields + random) whose field types additionally have INHERENT methods named like "
+             "every operator method (all derives; a derive reaching a field by method-call syntax would call those), enums too "
              "+ every 1- and 2-variant enum over {tuple, named, unit} (all five Mul-like derives forwarded) + random enums "
              "(1..5 variants, 0..3 fields, random subset of Mul-like derives under #[..(forward)]); each type "
              "derives every applicable one of the 24 traits with the real macro and every operation is run (binary, scalar with 3 "
@@ -1035,6 +1082,9 @@ def run(tier, seed, replay):
 
 def runtime_class(c, op, real, want):
     tr = op[1]
+    if c.get("hij"):
+        # the field type has inherent methods named like the operator methods
+        return "inherent-namesake-shadows-%s" % EXPANDER[tr]
     if c["kind"] == "enum":
         return "enum-%s-result" % EXPANDER[tr]
     return "struct-%s-%s-result" % (EXPANDER[tr], op[2])
